@@ -54,6 +54,10 @@ def main():
         ct = os.path.join(verif, "harness", "Cargo.toml")
         txt = open(ct).read().replace('"/repo/', '"%s/' % repo)
         open(ct, "w").write(txt)
+        ct2 = os.path.join(verif, "harness_miri", "Cargo.toml")
+        if os.path.exists(ct2):
+            t2 = open(ct2).read().replace('"/repo/', '"%s/' % repo)
+            open(ct2, "w").write(t2)
     r = sh(["git", "-C", repo, "apply", patch])
     if r.returncode:
         print("patch does not apply: " + r.stderr); return 2
